@@ -15,8 +15,11 @@ package home
 //	           globalContext.auth is still nil), initUsers, newWebAPI on a fresh
 //	           mux (first run: the static server, /install.html and
 //	           registerInstallHandlers; otherwise registerControlHandlers);
-//	configure  the body of handleInstallConfigure (see c11LifeWorld.configure
-//	           for what is the real code and what is transcribed);
+//	configure  the wizard's last call.  Every outcome but success goes through the
+//	           REAL handler, POST /control/install/configure on the mux of the
+//	           process (see c11LifeWorld.configureReal); success is the body of
+//	           handleInstallConfigure with startMods left out (see
+//	           c11LifeWorld.configure for what is real and what is transcribed);
 //	write      the real config.write, directly or through onConfigModified;
 //	stop       Auth.Close, globalContext.auth = nil (cleanup), the process ends;
 //
@@ -37,10 +40,12 @@ import (
 	"bytes"
 	"context"
 	"fmt"
+	"net"
 	"net/http"
 	"net/http/httptest"
 	"os"
 	"path/filepath"
+	"sort"
 	"strings"
 	"testing"
 	"testing/fstest"
@@ -271,17 +276,16 @@ func (lw *c11LifeWorld) registerModules() {
 	dhcpd.VerifRegisterRoutes(reg)
 }
 
-// configure: the body of web.handleInstallConfigure after its request
-// validation, statement by statement.  REAL: Auth.addUser, config.write,
+// configure: the SUCCESSFUL run of web.handleInstallConfigure, statement by
+// statement after its request validation.  REAL: Auth.addUser, config.write,
 // registerControlHandlers, and the registrations startMods leads to
 // (registerModules).  TRANSCRIBED (set here as the handler sets them):
-// globalContext.firstRun = false before addUser; firstRun = true again on
-// every error branch; web.conf.firstRun = false at the end.  NOT RUN:
-// aghnet.CheckPort and startMods themselves (they bind the DNS sockets);
-// mode "startmods-fails" takes the handler's error branch at that point.
-// The handler as a whole is reached through the real mux only to see whether
-// preInstall lets a request through (with a body it rejects).
-func (lw *c11LifeWorld) configure(name, password, mode string) (hash string, res string) {
+// globalContext.firstRun = false before addUser; web.conf.firstRun = false at
+// the end.  NOT RUN: aghnet.CheckPort and startMods (a DNS server would be
+// started).  That the handler has this skeleton is read off the source by
+// tools/routes (Gen.Routes.configure_code); its other outcomes are driven
+// through the handler itself (configureReal).
+func (lw *c11LifeWorld) configure(name, password string) (hash string, res string) {
 	if !lw.running {
 		lw.t.Fatal("configure without a process")
 	}
@@ -290,15 +294,10 @@ func (lw *c11LifeWorld) configure(name, password, mode string) (hash string, res
 	u := &webUser{Name: name}
 	err := globalContext.auth.addUser(u, password)
 	if err != nil {
-		globalContext.firstRun = true
-		return "", "CfgAddUserFails"
+		lw.t.Fatalf("addUser(%q, %q): %v", name, password, err)
 	}
 	lw.adminMem = true
 	lw.passwords[name] = password
-	if mode == "startmods-fails" {
-		globalContext.firstRun = true
-		return u.PasswordHash, "CfgStartModsFails"
-	}
 	if !lw.controlRegd {
 		lw.registerModules()
 	}
@@ -313,6 +312,94 @@ func (lw *c11LifeWorld) configure(name, password, mode string) (hash string, res
 	}
 	lw.adminSaved = true
 	return u.PasswordHash, "CfgOk"
+}
+
+// c11FreePort: a port on 127.0.0.1 that is free for TCP and UDP right now.
+func c11FreePort(t *testing.T) uint16 {
+	for i := 0; i < 20; i++ {
+		l, err := net.Listen("tcp", "127.0.0.1:0")
+		if err != nil {
+			t.Fatalf("free port: %v", err)
+		}
+		port := l.Addr().(*net.TCPAddr).Port
+		pc, err := net.ListenPacket("udp", fmt.Sprintf("127.0.0.1:%d", port))
+		_ = l.Close()
+		if err == nil {
+			_ = pc.Close()
+			return uint16(port)
+		}
+	}
+	t.Fatal("no port free for both TCP and UDP")
+	return 0
+}
+
+// configureReal: the REAL handler, through the mux of the running process:
+// POST /control/install/configure -> preInstall -> ensurePOST ->
+// web.handleInstallConfigure.  The outcomes that need no DNS server:
+//
+//	rejected-ports     ports 0: decodeApplyConfigReq answers 400
+//	rejected-password  a 3-rune password: 422 before anything is touched
+//	adduser-fails      a 73-byte password: bcrypt refuses it inside addUser,
+//	                   after globalContext.firstRun = false: 422
+//	startmods-fails    config.Stats.DirPath names a regular file, so startMods
+//	                   fails in checkStatsAndQuerylogDirs before it creates
+//	                   anything: 500, after addUser has appended the account
+//
+// The web address of the request is the configured one (no restart of the
+// HTTP server is asked for); the DNS address is 127.0.0.1 with a port that is
+// free (aghnet.CheckPort binds it for an instant).  ok = false: the handler
+// answered something else than the outcome asks for (the port was taken in
+// between: 400, nothing touched); the step is then recorded as rejected.
+func (lw *c11LifeWorld) configureReal(name, mode string) (hash, res string, status int) {
+	t := lw.t
+	password := "pass-" + name + "-word"
+	dnsPort, webPort := c11FreePort(t), config.HTTPConfig.Address.Port()
+	want := 0
+	switch mode {
+	case "rejected-ports":
+		dnsPort, webPort, want = 0, 0, http.StatusBadRequest
+	case "rejected-password":
+		password, want = "abc", http.StatusUnprocessableEntity
+	case "adduser-fails":
+		password, want = strings.Repeat("long-pw-", 9)+"x", http.StatusUnprocessableEntity
+	case "startmods-fails":
+		notDir := filepath.Join(lw.work, "not-a-directory")
+		if err := os.WriteFile(notDir, []byte("x"), 0o644); err != nil {
+			t.Fatal(err)
+		}
+		config.Stats.DirPath, want = notDir, http.StatusInternalServerError
+		defer func() { config.Stats.DirPath = "" }()
+	default:
+		t.Fatalf("configureReal: mode %q", mode)
+	}
+	body := fmt.Sprintf(`{"web":{"ip":%q,"port":%d},"dns":{"ip":"127.0.0.1","port":%d},"username":%q,"password":%q}`,
+		config.HTTPConfig.Address.Addr().String(), webPort, dnsPort, name, password)
+	before := memUsers(globalContext.auth)
+	r := httptest.NewRequest(http.MethodPost, "http://agh.example/control/install/configure", strings.NewReader(body))
+	r.Header.Set("Content-Type", "application/json")
+	rec := httptest.NewRecorder()
+	globalContext.mux.ServeHTTP(rec, r)
+	status = rec.Code
+	after := memUsers(globalContext.auth)
+	if status != want {
+		if status == http.StatusBadRequest && len(after) == len(before) {
+			return "", "CfgRejected", status // CheckPort lost a race for the port
+		}
+		t.Fatalf("POST /control/install/configure (%s): status %d, want %d; body %q", mode, status, want, rec.Body.String())
+	}
+	switch mode {
+	case "adduser-fails":
+		return "", "CfgAddUserFails", status
+	case "startmods-fails":
+		if len(after) != len(before)+1 {
+			// (a handler that takes the account back: the model then disagrees, which is the point of the comparison)
+			return "", "CfgStartModsFails", status
+		}
+		lw.adminMem = true
+		lw.passwords[name] = password
+		return after[len(after)-1].PasswordHash, "CfgStartModsFails", status
+	}
+	return "", "CfgRejected", status
 }
 
 func (lw *c11LifeWorld) write(via string) {
@@ -374,6 +461,56 @@ func (lw *c11LifeWorld) observe(what string) string {
 	if lw.adminSaved && !a.authRequired() {
 		lw.fail("c11-account-lost", "after %s: an administrator account was created and saved, but authentication is not required any more: accounts in memory %s, users: in the file %s (file present: %v)",
 			what, c11UsersDesc(mem), c11UsersDesc(fus), fok)
+	}
+	// (c) the real registrations on this mux, judged from the outside (first:
+	// a failure is then reported with a route of the source)
+	for _, rt := range lw.routes {
+		if rt.Kind == "Unresolved" || rt.Pattern == "/" || strings.Contains(rt.Pos, "_windows.go") {
+			continue
+		}
+		install := rt.Pattern == "/install.html" || strings.HasPrefix(rt.Pattern, "/control/install/")
+		if c11Exception(rt.Pattern) && !install {
+			continue
+		}
+		m := rt.Method
+		for _, w := range rt.Chain {
+			if w.Kind == "Ensure" {
+				m = w.Arg
+			}
+		}
+		if m == "" {
+			m = "GET"
+		}
+		q := c11Req{method: m, path: rt.Pattern}
+		if m != "GET" {
+			q.ctype, q.body = "application/json", 1
+		}
+		status, loc, _, _, body := lw.serve(q)
+		if install {
+			// preInstall answers 403; anything else means it let the request through
+			if lw.adminSaved && status != http.StatusForbidden {
+				lw.fail("c11-install-open-after-setup", "after %s: %s %s (registered at %s) without credentials was not refused: status %d, body %q; the wizard has completed (firstRun = %v, accounts %s): the install API must answer 403",
+					what, m, rt.Pattern, rt.Pos, status, body, firstRun, c11UsersDesc(mem))
+			}
+			if status == http.StatusForbidden {
+				lw.classes["life-real-install-refused"] = true
+			} else {
+				lw.classes["life-real-install-open-first-run"] = true
+			}
+			continue
+		}
+		refused := status == 403 || status == 302 || status == 301 || status == 307 || status == 404
+		if accountExists && !refused {
+			how := fmt.Sprintf("status %d, Location %q, body %q", status, loc, body)
+			if status == 599 {
+				how = "the real handler ran and panicked: the harness has no DNS server behind it; " + body
+			}
+			lw.fail("c11-route-unguarded:"+rt.Pattern, "after %s: %s %s (registered at %s) without credentials reached the handler (%s); an administrator account exists (accounts in memory %s, users: in the file %s)",
+				what, m, rt.Pattern, rt.Pos, how, c11UsersDesc(mem), c11UsersDesc(fus))
+		}
+		if accountExists && status == 403 {
+			lw.classes["life-real-route-refused"] = true
+		}
 	}
 	// (a) the probe routes, compared with the model
 	probes := []string{}
@@ -442,57 +579,12 @@ func (lw *c11LifeWorld) observe(what string) string {
 			}
 		}
 	}
-	// (c) the real registrations on this mux, judged from the outside
-	for _, rt := range lw.routes {
-		if rt.Kind == "Unresolved" || rt.Pattern == "/" || strings.Contains(rt.Pos, "_windows.go") {
-			continue
-		}
-		install := rt.Pattern == "/install.html" || strings.HasPrefix(rt.Pattern, "/control/install/")
-		if c11Exception(rt.Pattern) && !install {
-			continue
-		}
-		m := rt.Method
-		for _, w := range rt.Chain {
-			if w.Kind == "Ensure" {
-				m = w.Arg
-			}
-		}
-		if m == "" {
-			m = "GET"
-		}
-		q := c11Req{method: m, path: rt.Pattern}
-		if m != "GET" {
-			q.ctype, q.body = "application/json", 1
-		}
-		status, loc, _, _, body := lw.serve(q)
-		if install {
-			// preInstall answers 403; anything else means it let the request through
-			if lw.adminSaved && status != http.StatusForbidden {
-				lw.fail("c11-install-open-after-setup", "after %s: %s %s (registered at %s) without credentials was not refused: status %d, body %q; the wizard has completed (firstRun = %v, accounts %s): the install API must answer 403",
-					what, m, rt.Pattern, rt.Pos, status, body, firstRun, c11UsersDesc(mem))
-			}
-			if status == http.StatusForbidden {
-				lw.classes["life-real-install-refused"] = true
-			} else {
-				lw.classes["life-real-install-open-first-run"] = true
-			}
-			continue
-		}
-		refused := status == 403 || status == 302 || status == 301 || status == 307 || status == 404
-		if accountExists && !refused {
-			lw.fail("c11-route-unguarded:"+rt.Pattern, "after %s: %s %s (registered at %s) without credentials reached the handler (status %d, Location %q, body %q); an administrator account exists (accounts in memory %s, users: in the file %s)",
-				what, m, rt.Pattern, rt.Pos, status, loc, body, c11UsersDesc(mem), c11UsersDesc(fus))
-		}
-		if accountExists && status == 403 {
-			lw.classes["life-real-route-refused"] = true
-		}
-	}
 	return "(" + procCoq + ", " + fileCoq + ", " + vfList(probeTy, probes) + ")"
 }
 
 // c11LifeStep: one operation of a history.
 type c11LifeStep struct {
-	op   string // boot, boot-garbage, configure, configure-empty-password, configure-startmods-fails, write, write-modified, stop
+	op   string // boot, boot-garbage, configure, configure-rejected-ports, configure-rejected-password, configure-adduser-fails, configure-startmods-fails, write, write-modified, stop
 	name string
 }
 
@@ -520,21 +612,21 @@ func (lw *c11LifeWorld) step(s c11LifeStep) {
 		} else {
 			lw.classes["life-boot-fatal"] = true
 		}
-	case "configure", "configure-empty-password", "configure-startmods-fails":
+	case "configure", "configure-rejected-ports", "configure-rejected-password", "configure-adduser-fails", "configure-startmods-fails":
 		if !lw.running || !globalContext.firstRun {
 			return // the handler is behind preInstall: not reachable
 		}
-		pw := "pass-" + s.name + "-word"
-		mode := ""
-		switch s.op {
-		case "configure-empty-password":
-			pw = ""
-		case "configure-startmods-fails":
-			mode = "startmods-fails"
+		hash, res, how := "", "", "success path, startMods left out"
+		if s.op == "configure" {
+			hash, res = lw.configure(s.name, "pass-"+s.name+"-word")
+		} else {
+			status := 0
+			hash, res, status = lw.configureReal(s.name, strings.TrimPrefix(s.op, "configure-"))
+			how = fmt.Sprintf("the real handler, %s: status %d", strings.TrimPrefix(s.op, "configure-"), status)
+			lw.classes["life-real-handler"] = true
 		}
-		hash, res := lw.configure(s.name, pw, mode)
 		opCoq = vfApp("OConfigure", vfBytes(s.name), vfBytes(hash), res)
-		lw.hist = append(lw.hist, fmt.Sprintf("the wizard's configure call for %q (%s)", s.name, res))
+		lw.hist = append(lw.hist, fmt.Sprintf("the wizard's configure call for %q (%s; %s)", s.name, res, how))
 		lw.classes["life-"+res] = true
 		if res == "CfgOk" {
 			mem := memUsers(globalContext.auth)
@@ -668,7 +760,19 @@ func c11LifeCases(out *vfOut, wd *c11World, rnd *vfRand, routes []c11Route) {
 	if err = enc.Encode(prevConfig); err != nil {
 		t.Fatalf("encoding the default config: %v", err)
 	}
-	lw := &c11LifeWorld{t: t, wd: wd, defYAML: buf.Bytes(), routes: routes}
+	// package home's own routes first, /control/status and the wizard's in front
+	rank := func(rt c11Route) int {
+		switch {
+		case rt.Pattern == "/control/status" || rt.Pattern == "/control/install/get_addresses":
+			return 0
+		case strings.Contains(rt.Func, "/internal/home."):
+			return 1
+		}
+		return 2
+	}
+	sorted := append([]c11Route{}, routes...)
+	sort.SliceStable(sorted, func(i, j int) bool { return rank(sorted[i]) < rank(sorted[j]) })
+	lw := &c11LifeWorld{t: t, wd: wd, defYAML: buf.Bytes(), routes: sorted}
 
 	S := func(ops ...string) []c11LifeStep {
 		st := make([]c11LifeStep, len(ops))
@@ -686,7 +790,7 @@ func c11LifeCases(out *vfOut, wd *c11World, rnd *vfRand, routes []c11Route) {
 	c11LifeHistory(out, lw, "wizard-save-restart", nil, false, S("boot", "configure", "write", "stop", "boot"))
 	c11LifeHistory(out, lw, "wizard-restart", nil, false, S("boot", "configure", "stop", "boot", "write-modified", "stop", "boot"))
 	c11LifeHistory(out, lw, "configured-save-restart", std[:2], true, S("boot", "write", "stop", "boot", "write-modified", "write", "stop", "boot"))
-	c11LifeHistory(out, lw, "wizard-retry", nil, false, S("boot", "configure-empty-password", "configure", "stop", "boot"))
+	c11LifeHistory(out, lw, "wizard-retry", nil, false, S("boot", "configure-rejected-ports", "configure-rejected-password", "configure-adduser-fails", "configure", "stop", "boot"))
 	c11LifeHistory(out, lw, "wizard-startmods-fails", nil, false, S("boot", "configure-startmods-fails:first", "configure:second", "write", "stop", "boot"))
 	c11LifeHistory(out, lw, "restart-before-wizard", nil, false, S("boot", "stop", "boot", "configure", "stop", "boot-garbage", "boot"))
 	c11LifeHistory(out, lw, "configured-without-users", nil, true, S("boot", "write", "stop", "boot"))
@@ -708,7 +812,7 @@ func c11LifeCases(out *vfOut, wd *c11World, rnd *vfRand, routes []c11Route) {
 			case 5:
 				ops = append(ops, vfPick(rnd, []string{"configure:admin", "configure:root"}))
 			case 6:
-				ops = append(ops, vfPick(rnd, []string{"configure-empty-password", "configure-startmods-fails:early"}))
+				ops = append(ops, vfPick(rnd, []string{"configure-adduser-fails", "configure-startmods-fails:early", "configure-rejected-password"}))
 			case 7:
 				ops = append(ops, "stop", vfPick(rnd, []string{"boot", "boot-garbage"}), "boot")
 			}
